@@ -175,7 +175,8 @@ def norm_shape():
 
     def body(a):
         from pydbml.tools import strip_empty_lines, remove_indentation
-        x = ' ' * a['n1'] + 'a' + '\n' + ' ' * a['k'] + '\n' + ' ' * a['n2'] + 'b' + ('\n' + ' ' * a['k'] if a['tail'] else '')
+        SP = ['', ' ', '  ', '   ']      # list lookup: the widths are enumerated, the text stays concrete per path
+        x = SP[a['n1']] + 'a' + '\n' + SP[a['k']] + '\n' + SP[a['n2']] + 'b' + ('\n' + SP[a['k']] if a['tail'] else '')
         try:
             y = remove_indentation(strip_empty_lines(x))
             z = remove_indentation(strip_empty_lines(y))
